@@ -17,6 +17,7 @@ import (
 	"runtime/debug"
 	"sort"
 	"strings"
+	"sync"
 	"time"
 
 	"github.com/btcsuite/btcutil/base58"
@@ -48,8 +49,24 @@ type Outcome struct {
 
 var hangLimit = 20 * time.Second
 
-var seenSite = map[string]bool{}
+var (
+	seenSite   = map[string]bool{}
+	seenSiteMu sync.Mutex
+)
 
+// firstSight tells whether the panic site is seen for the first time in this run.
+func firstSight(site string) bool {
+	seenSiteMu.Lock()
+	defer seenSiteMu.Unlock()
+
+	if seenSite[site] {
+		return false
+	}
+
+	seenSite[site] = true
+
+	return true
+}
 
 // panicSite names the innermost frame below the panic that belongs to the framework (or the library that panicked).
 func panicSite(stack string) string {
@@ -102,8 +119,7 @@ func runOnce(f func() error) Outcome {
 				st := string(debug.Stack())
 				o = Outcome{Class: "panic", Err: fmt.Sprint(r), Site: panicSite(st)}
 
-				if !seenSite[o.Site] {
-					seenSite[o.Site] = true
+				if firstSight(o.Site) {
 					fmt.Fprintf(os.Stderr, "c03: first panic at %s: %v\n%s\n", o.Site, r, st)
 				} else if os.Getenv("VERIF_STACK") != "" {
 					fmt.Fprintf(os.Stderr, "panic: %v\n%s\n", r, st)
@@ -142,7 +158,22 @@ func fence(f func() error) Outcome {
 	return o
 }
 
+// put appends a record (the synchronous part and the protocol workers run side by side).
+func (r *runner) put(rec *hx.Record) {
+	r.mu.Lock()
+	defer r.mu.Unlock()
+
+	r.n++
+
+	if rec.Oracle == "fail" {
+		r.fails++
+	}
+
+	r.tr.Put(rec)
+}
+
 type runner struct {
+	mu      sync.Mutex
 	tr      *hx.Trace
 	sw      *syncWorld
 	rng     *hx.Rng
@@ -168,11 +199,10 @@ func errKind(o Outcome) string {
 }
 
 func (r *runner) emit(sd *Seed, t Target, c Case, in []byte, wellFormed bool) Outcome {
-	in = r.pool.substitute(in)
+	in = r.pool.substitute(in, "x")
 	flood0, contact0 := r.pool.flooded(), r.pool.contacts()
 
 	o := fence(func() error { return t.Run(in) })
-	r.n++
 
 	// out of proportion: the call took more than 32 MiB from an endless stream a ~100 byte member pointed at
 	if o.Class != "panic" && o.Class != "timeout" && r.pool.flooded()-flood0 > 1<<25 {
@@ -195,7 +225,6 @@ func (r *runner) emit(sd *Seed, t Target, c Case, in []byte, wellFormed bool) Ou
 	}
 
 	if o.Class == "panic" || o.Class == "timeout" {
-		r.fails++
 		rec.Oracle = "fail"
 		rec.Sig = o.Class + "@" + o.Site
 
@@ -212,7 +241,7 @@ func (r *runner) emit(sd *Seed, t Target, c Case, in []byte, wellFormed bool) Ou
 		rec.Coq = coq
 	}
 
-	r.tr.Put(rec)
+	r.put(rec)
 
 	return o
 }
@@ -443,7 +472,7 @@ func didKeyByteMutations(s string) [][2]string {
 		"unterminated": {0xff}, "unterminated3": {0xff, 0xff, 0xff}, "overlong9": {0x80, 0x80, 0x80, 0x80, 0x80, 0x80, 0x80, 0x80, 0x01},
 		"overflow10": {0xff, 0xff, 0xff, 0xff, 0xff, 0xff, 0xff, 0xff, 0xff, 0x7f},
 		"overflow11": {0xff, 0xff, 0xff, 0xff, 0xff, 0xff, 0xff, 0xff, 0xff, 0xff, 0x01},
-		"same": raw[:br],
+		"same":       raw[:br],
 	}
 
 	names := make([]string, 0, len(codes))
@@ -540,6 +569,8 @@ func main() {
 	}
 
 	// corpus first
+	var protoCorpus []Case
+
 	if a.Extra != "" {
 		files, _ := filepath.Glob(filepath.Join(a.Extra, "*.json")) //nolint:errcheck
 		sort.Strings(files)
@@ -555,12 +586,29 @@ func main() {
 			}
 
 			if json.Unmarshal(b, &doc) == nil {
+				if doc.Case.Proto != nil {
+					protoCorpus = append(protoCorpus, doc.Case)
+					continue
+				}
+
 				r.replayCase(doc.Case, "corpus")
 			}
 		}
+
+		r.replayProtoBatch(protoCorpus, "corpus")
 	}
 
 	only := os.Getenv("C03_ONLY") // development aid: "sync" or "proto"
+
+	protoDone := make(chan struct{})
+
+	go func() {
+		defer close(protoDone)
+
+		if only != "sync" {
+			r.runProtocols()
+		}
+	}()
 
 	if only != "proto" {
 		for _, sd := range r.sw.seeds {
@@ -573,9 +621,7 @@ func main() {
 		}
 	}
 
-	if only != "sync" {
-		r.runProtocols()
-	}
+	<-protoDone
 
 	fmt.Fprintf(os.Stderr, "c03: %d fenced calls, %d oracle failures\n", r.n, r.fails)
 }
